@@ -391,4 +391,5 @@ def run(ck):
           'every region is tried', key='DT-domain|same_region')
     shared.truthy_zero(ck, [RB])
     shared.runs_every_molecule(ck, 'vermouth/processors/apply_rubber_band.py', 'ApplyRubberBand', 'MPT-every-molecule')
+    shared.residue_graph_rules(ck, 'PROV-connectivity')
     ck.assume('matrix index arithmetic of numpy and the numeric values of the decay are not decided beyond the sample grid')
